@@ -129,6 +129,37 @@ func c03Positions(v interface{}, path []interface{}, out *[]c03Pos) {
 }
 
 // confuse position k of the decoded JSON value with replacement r (r beyond the table: string surgery / removal)
+// members that steer decoders (key type / algorithm / curve / suite selectors, selective-disclosure and JSON-LD keywords):
+// with r >= c03InjectBase one of them is ADDED to (or overwrites a member of) the object the chosen position lives in, so
+// that two members which each look fine contradict each other (an OKP key that says "alg":"ES256K", ...)
+const c03InjectBase = 1000
+
+var c03Inject = []struct {
+	k string
+	v interface{}
+}{
+	{"alg", "ES256K"}, {"alg", "EdDSA"}, {"alg", "ES256"}, {"alg", "none"}, {"alg", "Bls12381g2"}, {"alg", "es256k"},
+	{"alg", "ECDH-1PU+A256KW"}, {"alg", "RS256"}, {"alg", "PS256"}, {"alg", "ES384"},
+	{"kty", "EC"}, {"kty", "OKP"}, {"kty", "RSA"}, {"kty", "oct"},
+	{"crv", "secp256k1"}, {"crv", "P-256"}, {"crv", "P-521"}, {"crv", "Ed25519"}, {"crv", "X25519"}, {"crv", "BLS12381_G2"},
+	{"type", "JsonWebKey2020"}, {"type", "Ed25519VerificationKey2018"}, {"type", "Bls12381G2Key2020"},
+	{"type", "X25519KeyAgreementKey2019"}, {"type", "EcdsaSecp256k1VerificationKey2019"}, {"type", "BbsBlsSignatureProof2020"},
+	{"enc", "A256GCM"}, {"enc", "XC20P"}, {"typ", "JWT"}, {"cty", "JWT"}, {"zip", "DEF"}, {"skid", "x"}, {"apu", "eA"},
+	{"d", "AA"}, {"use", "sig"}, {"x5c", []interface{}{"AA"}}, {"k", "AA"}, {"n", "AQAB"}, {"e", "AQAB"}, {"y", "AA"}, {"x", "AA"},
+	{"_sd", []interface{}{"x"}}, {"_sd_alg", "sha-384"}, {"...", "x"}, {"cnf", map[string]interface{}{"jwk": map[string]interface{}{}}},
+	{"@context", map[string]interface{}{"@base": "x"}}, {"id", "#x"}, {"@id", "#y"}, {"proofValue", "z"}, {"jws", "a..b"},
+	{"created", "x"}, {"publicKeyJwk", map[string]interface{}{"kty": "OKP", "crv": "Ed25519", "x": "AA", "alg": "ES256K"}},
+	{"publicKeyBase58", "1"}, {"publicKeyMultibase", "z"}, {"controller", []interface{}{}}, {"nonce", "!"},
+	{"serviceEndpoint", []interface{}{}}, {"routingKeys", "x"}, {"recipientKeys", "x"}, {"priority", "x"},
+}
+
+func c03InjectInto(cur interface{}, r int) {
+	if m, ok := cur.(map[string]interface{}); ok {
+		inj := c03Inject[(r-c03InjectBase)%len(c03Inject)]
+		m[inj.k] = c03Fresh(inj.v)
+	}
+}
+
 func c03Confuse(root interface{}, k, r int) interface{} {
 	var ps []c03Pos
 	c03Positions(root, nil, &ps)
@@ -136,6 +167,7 @@ func c03Confuse(root interface{}, k, r int) interface{} {
 		return root
 	}
 	p := ps[k%len(ps)].path
+	inject := r >= c03InjectBase
 	var set func(cur interface{}, path []interface{}) interface{}
 	set = func(cur interface{}, path []interface{}) interface{} {
 		last := len(path) == 1
@@ -157,6 +189,10 @@ func c03Confuse(root interface{}, k, r int) interface{} {
 				m[key] = set(m[key], path[1:])
 				return m
 			}
+			if inject {
+				c03InjectInto(m, r)
+				return m
+			}
 			n := len(c03Repl)
 			switch {
 			case r%(n+4) < n:
@@ -171,6 +207,10 @@ func c03Confuse(root interface{}, k, r int) interface{} {
 			a := cur.([]interface{})
 			if !last {
 				a[key] = set(a[key], path[1:])
+				return a
+			}
+			if inject {
+				c03InjectInto(a[key], r)
 				return a
 			}
 			n := len(c03Repl)
@@ -841,6 +881,9 @@ func c03Gen(r *Rng, tier string) []string {
 	icMsgs := []string{"prop", "offer", "req", "cred", "ack", "pr"}
 	for i := 0; i < n; i++ {
 		k, rr := r.N(400), r.N(64)
+		if r.N(5) == 0 {
+			rr = c03InjectBase + r.N(len(c03Inject))
+		}
 		var entry, variant string
 		switch x := r.N(20); {
 		case x < 6:
